@@ -467,9 +467,11 @@ def main(argv=None):
     if a.verbose:
         for o, r in proof:
             print("  %-7s %-8s %5.2fs %s" % (r["result"], r["backend"], r["seconds"], o.name))
+    seen_k = set()
     for k, n in known_hits:
-        print("KNOWN-FINDING: property=%s %s [%s]" % (prop, k["what"], k["id"]))
-    seen_k = set(k["id"] for k, n in known_hits)
+        if k["id"] not in seen_k:      # one line per listed finding, however many obligations (paths) exhibit it
+            print("KNOWN-FINDING: property=%s %s [%s]" % (prop, k["what"], k["id"]))
+        seen_k.add(k["id"])
     if faults and not violations:
         for f in faults:
             print("ENGINE-FAULT: %s" % f)
